@@ -325,9 +325,9 @@ def run(pid, tier, seed):
                     ("IndirectCallCycleError" in outcome[1] or "InvalidEngineState@engine_stack.execute" in outcome[1]) \
                     and "recursive-predicate" in r.get("classes", ()):
                 name = "bounded:c04:unbuffered-engines-on-cyclic-programs"
-            elif pid in ("C03", "C04", "C07") and "NegativeCycle" in both and \
-                    {"recursive-predicate"} <= set(r.get("classes", ())) and r.get("has_negation") and \
-                    (outcome[0] == "ok" or base[0] == "ok"):
+            elif (("NegativeCycle" in (outcome[1] if outcome[0] == "exc" else "")) !=
+                  ("NegativeCycle" in (base[1] if base[0] == "exc" else ""))) and \
+                    {"recursive-predicate"} <= set(r.get("classes", ())) and r.get("has_negation"):
                 # known: one of the two runs raises NegativeCycle, the other answers (call-stack based detection)
                 name = "bounded:%s:order-dependent-negative-cycle" % pid.lower()
             elif outcome[0] == "exc" and outcome[1].startswith("internal:"):
